@@ -2396,7 +2396,9 @@ class Engine:
         b = h.copy().assume(z3.And(0 <= i, i < ln))
         # vacuity guard for the inductive step: the body must be reachable for an iteration AFTER the first one (i >= 1); if that is refutable, the havoc at the
         # loop head or the invariant pins the loop to its first iteration and 'preserve' proves nothing about the others
-        self.oblige(f"loop{k}.later-iteration.CANARY", b.copy().assume(i >= 1), z3.BoolVal(False))
+        ln_s = z3.simplify(ln)
+        if not (z3.is_int_value(ln_s) and ln_s.as_long() <= 1):          # (an iterable of concrete length <= 1 has no later iteration by construction)
+            self.oblige(f"loop{k}.later-iteration.CANARY", b.copy().assume(i >= 1), z3.BoolVal(False))
         self.store(n.target, self.iter_item(it, i), b)
         for s, flow, val in self.run(n.body, b):
             if flow in ("next", "continue"):
